@@ -5,6 +5,7 @@
    each packet is exactly Len() bytes of wire encoding by C03.  This file only closes statements
    with proved lemmas. *)
 From Ring Require Import Writers.
+From Ring Require ProofsWriters.
 From Locks Require Import Discipline.
 From Ackq Require Spec ProofsFifo.
 
@@ -30,3 +31,23 @@ Print Assumptions C17_ring_roles.
 Theorem C17_qos2_release_in_order : Ackq.Spec.C13_fifo_prefix.
 Proof. exact Ackq.ProofsFifo.fifo_prefix. Qed.
 Print Assumptions C17_qos2_release_in_order.
+
+(* while a producer call on the ring is in progress, its packet is the packet of the goroutine that holds the write mutex; otherwise the producer side is idle *)
+Theorem C17_one_at_a_time : Ring.Writers.C17_one_at_a_time.
+Proof. exact Ring.ProofsWriters.one_at_a_time. Qed.
+Print Assumptions C17_one_at_a_time.
+
+(* the mutex holder is the one goroutine inside writeMessage *)
+Theorem C17_holder_unique : Ring.ProofsWriters.C17_holder_unique.
+Proof. exact Ring.ProofsWriters.holder_unique. Qed.
+Print Assumptions C17_holder_unique.
+
+(* the committed stream only ever grows by the whole packet of the current mutex holder *)
+Theorem C17_log_is_holders_packets : Ring.ProofsWriters.C17_log_is_holders_packets.
+Proof. exact Ring.ProofsWriters.log_is_holders_packets. Qed.
+Print Assumptions C17_log_is_holders_packets.
+
+(* one critical section commits at most one packet *)
+Theorem C17_log_step_finishes_call : Ring.ProofsWriters.C17_log_step_finishes_call.
+Proof. exact Ring.ProofsWriters.log_step_finishes_call. Qed.
+Print Assumptions C17_log_step_finishes_call.
